@@ -166,9 +166,9 @@ pub mod sched_raw {
         let tx = engine.begin();
         let pend: Vec<PendingRewrite> = drained.into_iter().map(to_pending).collect();
         let out = engine
-            .reserve_for_receipt(tx, pend)
+            .echo_verif_reserve_for_receipt(tx, pend)
             .map_err(|e| format!("{e:?}"))?;
-        let receipt = out.receipt;
+        let receipt = out.0;
         let entries = receipt.entries().to_vec();
         let rows = entries
             .iter()
@@ -180,7 +180,7 @@ pub mod sched_raw {
                 )
             })
             .collect();
-        let reserved_tags = out.reserved.iter().map(|p| scope_to_tag(&p.scope)).collect();
+        let reserved_tags = out.1.iter().map(|p| scope_to_tag(&p.scope)).collect();
         engine.abort(tx);
         Ok((rows, entries, reserved_tags))
     }
